@@ -219,6 +219,65 @@ def run_case(case):
         CobaContext._logger = old
 
 
+def run_drop(case):
+    """As a caller that builds a FRESH action list for every call and drops it afterwards (nothing but SafeLearner can keep it
+    alive, so CPython is free to reuse its address for the next list): predict, learn, delete - no allocation of the harness in
+    between.  Records hold value copies made afterwards."""
+    from coba.safety import SafeLearner
+    from coba.context import CobaContext, NullLogger
+    from coba.environments import Batch
+    old = CobaContext._logger
+    CobaContext.logger = NullLogger()
+    try:
+        learner = make_learner(case)
+        safe = SafeLearner(learner) if case.get("seed") is None else SafeLearner(learner, case["seed"])
+        batch = bool(case.get("batch"))
+        n = len(case["calls"])
+        tpl_ctx = [[dec(r["ctx"]) for r in call] for call in case["calls"]]
+        tpl_act = [tuple(tuple(dec(a) for a in r["actions"]) for r in call) for call in case["calls"]]
+        rwds = [Batch.List([0.25 * (i + 1) for i in range(len(call))]) if batch else 0.25 for call in case["calls"]]
+        ctxs = [Batch.List(c) if batch else c[0] for c in tpl_ctx]
+        outs, marks, excs, lexcs = [None] * n, [None] * n, [None] * n, [None] * n
+        learner.has_score_seen = None
+        for ci in range(n):
+            if batch:
+                actions = Batch.List(map(list, tpl_act[ci]))
+            else:
+                actions = list(tpl_act[ci][0])
+            try:
+                out = safe.predict(ctxs[ci], actions)
+                outs[ci] = out
+            except Exception as e:
+                excs[ci] = e
+            if excs[ci] is None:
+                try:
+                    safe.learn(ctxs[ci], out[0], rwds[ci], out[1], **out[2])
+                except Exception as e:
+                    lexcs[ci] = e
+            marks[ci] = (len(learner.predict_calls), len(learner.learn_calls))
+            del actions
+            if excs[ci] is not None or lexcs[ci] is not None:
+                break
+        recs, p0, l0 = [], 0, 0
+        for ci in range(n):
+            if marks[ci] is None:
+                break
+            acts = [[dec(a) for a in r["actions"]] for r in case["calls"][ci]]
+            rec = {"ctx": ctxs[ci], "actions": Batch.List(acts) if batch else acts[0], "np0": p0, "np1": marks[ci][0], "nl0": l0, "nl1": marks[ci][1],
+                   "w": 0, "b": batch, "rwd": rwds[ci]}
+            if excs[ci] is not None:
+                rec["exc"] = excs[ci]
+            else:
+                rec["out"] = outs[ci]
+                if lexcs[ci] is not None:
+                    rec["learn_exc"] = lexcs[ci]
+            recs.append(rec)
+            p0, l0 = marks[ci]
+        return learner, recs
+    finally:
+        CobaContext._logger = old
+
+
 def same(x, y):
     """Python == that also keeps None apart from numbers"""
     return freeze(x) == freeze(y) and (x is None) == (y is None)
@@ -245,6 +304,17 @@ def monitor(case, learner, recs):
     for ci, (rec, call, exp) in enumerate(zip(recs, case["calls"], want)):
         n = len(call)
         where = "call %d (%d row%s, %d action%s)" % (ci, n, "s" * (n != 1), len(call[0]["actions"]), "s" * (len(call[0]["actions"]) != 1))
+        # the learner is offered exactly (==) the actions of THIS call (each row of it), never an earlier call's
+        acts_ = rec["actions"] if batch else [rec["actions"]]
+        offered = [list(a) for a in acts_]
+        stale = None
+        for b_, c_, a_ in learner.predict_calls[rec["np0"]:rec["np1"]]:
+            for got in ([list(x) for x in a_] if b_ else [list(a_)]):
+                if not any(same(got, o) for o in offered):
+                    stale = got
+        if stale is not None:
+            bad("%s: the learner was offered %s, this call's actions are %s" % (where, short(stale), short(offered)), "offered-actions-stale")
+            break
         if "exc" in rec:
             bad("%s: predict raised %s: %s" % (where, type(rec["exc"]).__name__, str(rec["exc"])[:120]), "raises-" + type(rec["exc"]).__name__)
             break
@@ -359,7 +429,7 @@ def e2e_seeds(case):
     return ev, exp, eff
 
 
-def run_e2e(case):
+def run_e2e(case, evaluator=None):
     """the same learner behind the real evaluator: SequentialCB(learn='on', eval='on', seed).evaluate(environment, learner)"""
     from coba.evaluators import SequentialCB
     from coba.primitives import SimulatedInteraction
@@ -376,12 +446,12 @@ def run_e2e(case):
         ev_seed, exp, _ = e2e_seeds(case)
         CobaContext.store = {} if exp == E2E_UNSET else {"experiment_seed": exp}
         learner = Scripted(case)
-        ev = SequentialCB(record=["action", "probability", "reward"], learn="on", eval="on", seed=ev_seed)
+        ev = evaluator if evaluator is not None else SequentialCB(record=["action", "probability", "reward"], learn="on", eval="on", seed=ev_seed)
         try:
             res = list(ev.evaluate(ListEnv(its), learner))
         except Exception as e:
             return learner, e
-        if case.get("e2e_seed"):
+        if case.get("e2e_seed") and evaluator is None:
             # a second evaluation by an equally configured evaluator (a fresh learner): same seed, same draws
             try:
                 learner.again = list(SequentialCB(record=["action", "probability", "reward"], learn="on", eval="on", seed=ev_seed).evaluate(ListEnv(its), Scripted(case)))
@@ -411,7 +481,7 @@ def monitor_e2e(case, learner, res):
         return []
     eff_int = None if eff is None else int(eff)
     want = [e for call in intended(dict(case, seed=(1 if eff_int is None else eff_int))) for e in call]
-    if case.get("e2e_seed") and ev_seed is not None and is_pmf and not isinstance(res, Exception):
+    if case.get("e2e_seed") and ev_seed is not None and is_pmf and not isinstance(res, Exception) and hasattr(learner, "again"):
         again = getattr(learner, "again", None)
         key = lambda rs: [(short(o.get("action")), short(o.get("probability"))) for o in rs]
         if isinstance(again, Exception) or again is None or key(again) != key(res):
@@ -785,6 +855,10 @@ def gen_case(rng, stress=0.3):
         if exp != "unset":
             es["exp"] = exp
         case["e2e_seed"] = es
+        if rng.chance(0.4):
+            # one evaluator object, several evaluations, the experiment seed changing in between
+            es["ev"] = rng.choice([None, None, None, {"i": 0}, {"i": rng.randint(1, 9)}])
+            case["e2e_runs"] = [rng.choice(["unset", 0, 5, 7, rng.randint(1, 40)]) for _ in range(rng.randint(2, 4))]
     if rng.chance(0.12):
         # has_score / score error paths: no score attribute, the base class's NotImplementedError, an implemented score that raises
         case["score_kind"] = rng.choice(["absent", "base", ["raises", "AttributeError", "'Model' object has no attribute 'score'"],
@@ -848,6 +922,29 @@ def gen_mixed(rng):
             r["ctx"] = {"i": 100 + k}      # scalar contexts: `_method2` on an unbatched call then raises before calling the learner
             k += 1
     case["nobatch"] = "raise"
+    return case
+
+
+def gen_drop(rng):
+    """a caller that builds a fresh action list per call and drops it; action sets with 0/1 (they make SafeLearner keep a private
+    copy) whose contents and sizes change from call to call"""
+    case = gen_case(rng)
+    for k in ("e2e", "e2e_seed", "e2e_runs", "batches"):
+        case.pop(k, None)
+    calls = case["calls"]
+    while len(calls) < rng.choice([3, 4, 5, 6]):
+        calls.append(json.loads(json.dumps(calls[rng.below(len(calls))])))
+    style = rng.choice(["onehot_int", "dyadic", "mixed01"])
+    k = 0
+    for call in calls:
+        acts = gen_actions(rng, rng.choice(["int01", "mixint", "mixint", "bool", "fltmix", "ints"]), rng.choice([2, 3, 4]))
+        for r in call:
+            r["ctx"] = {"i": 300 + k}
+            k += 1
+            r["actions"] = acts
+            r["pick"] = rng.below(len(acts))
+            r["pmf"] = gen_pmf(rng, len(acts), style)
+    case["drop"] = True
     return case
 
 
@@ -970,7 +1067,8 @@ class C15(Property):
             "the quantifier (copies/aliases of offered objects, malformed PMFs, hint-named features) and are checked by (A) only. "
             "after every predict/learn the same SafeLearner is asked score(context, actions, action) for the named action (even calls) or its neighbour (odd calls); "
             "kwargs key order differs between rows in 25% of kwargs cases; in 30% of batched cases learn / score take batches independently of predict; "
-            "12% of learners have no / the base class's / an always-raising score (has_score and score error paths, (A)); 4% of cases switch one wrapper between "
+            "6% of cases are run as a caller that builds a fresh action list per call and drops it (0/1-containing, changing sets; (B) only); 40% of the seeded end-to-end cases "
+            "evaluate 2-4 times on ONE SequentialCB object while the experiment seed changes; 12% of learners have no / the base class's / an always-raising score (has_score and score error paths, (A)); 4% of cases switch one wrapper between "
             "batched and unbatched calls ((A) only); action kind `nan` ((B) only: not in the model); "
             "12% of cases are SafeLearner(SafeLearner(L), seed2) histories (two wrappers of one learner, calls interleaved, each batched or unbatched on its own); "
             "string action sets with prefixes of each other (compass points); 20% of PMFs sum to 1 +- d/65536 with d spread over the documented tolerance .001; "
@@ -1008,17 +1106,24 @@ class C15(Property):
             return gen_rewrap(rng)
         if rng.chance(0.04):
             return gen_mixed(rng)
+        if rng.chance(0.06):
+            return gen_drop(rng)
         return gen_case(rng)
 
     def search(self, rng, tier):
         # in-quantifier learners only ((B) is the only check the search runs), biased to the identity-sensitive combinations
-        return gen_rewrap(rng) if rng.chance(0.15) else gen_case(rng, stress=0.6)
+        return gen_rewrap(rng) if rng.chance(0.15) else gen_drop(rng) if rng.chance(0.1) else gen_case(rng, stress=0.6)
 
     def corpus(self):
         return corpus_cases()
 
     # ---- evaluation
     def evaluate(self, case, driver):
+        if case.get("drop"):
+            learner, recs = run_drop(case)
+            out = self.evaluate_one(case, learner, recs, None)      # (B) only: the identities (A) needs are exactly what is dropped
+            out["tags"].append("drop")
+            return out
         learner, recs = run_case(case)
         rw = case.get("rewrap")
         if not rw:
@@ -1110,6 +1215,24 @@ class C15(Property):
                 l2, res = run_e2e(case)
                 for what, detail in monitor_e2e(case, l2, res):
                     fails.append(F("B", what + "  [seed %s]" % case.get("seed"), "general:%s/%s" % (name, detail)))
+                if not fails and case.get("e2e_runs"):
+                    # ONE SequentialCB object used for several evaluations while the experiment seed changes: each evaluation draws
+                    # from the seed in effect THEN (the evaluator's own if not None, else the experiment seed of that moment)
+                    from coba.evaluators import SequentialCB
+                    evspec = (case.get("e2e_seed") or {}).get("ev")
+                    evobj = SequentialCB(record=["action", "probability", "reward"], learn="on", eval="on", seed=None if evspec is None else dec(evspec))
+                    tags.append("e2e-series:%d" % len(case["e2e_runs"]))
+                    for k, exp in enumerate(case["e2e_runs"]):
+                        es = {"ev": evspec}
+                        if exp != E2E_UNSET:
+                            es["exp"] = exp
+                        sub = dict(case, e2e_seed=es)
+                        l3, res3 = run_e2e(sub, evaluator=evobj)
+                        for what, detail in monitor_e2e(sub, l3, res3):
+                            fails.append(F("B", "evaluation %d of %s on ONE SequentialCB object: %s  [seed %s]" % (
+                                k, case["e2e_runs"], what, case.get("seed")), "general:%s/series-%s" % (name, detail)))
+                        if fails:
+                            break
         model = None
         if driver is not None and mapping_region(case) and not variant().get("mapping"):
             tags.append("A-skipped:mapping-region")     # the model's dict = Mapping mirrors the repaired code only
@@ -1415,6 +1538,29 @@ def corpus_cases():
                         es["exp"] = exp
                     cs.append({"seed": 0 if ev is None else int(dec(ev)), "fmt": fmt, "kw": False, "layout": "single" if mode == "not" else mode,
                                "batch": mode != "not", "e2e": True, "e2e_seed": es, "calls": calls})
+    # one SequentialCB object evaluated repeatedly while the experiment seed changes (None -> 5 -> 0 -> 7)
+    for fmt in ("PM", "dPM"):
+        for mode in ("not", "row", "single"):
+            for ev, runs in ((None, ["unset", 5, 0, 7]), (None, [5, 5, 0]), (None, [0, 7]), ({"i": 0}, [5, 7]), ({"i": 3}, ["unset", 0])):
+                n = 1 if mode == "not" else 2
+                calls = [[row(sets["str"], (ci + i) % 3, 10 * ci + i, pmf=pm3) for i in range(n)] for ci in range(4)]
+                cs.append({"seed": 0, "fmt": fmt, "kw": False, "layout": "single" if mode == "not" else mode, "batch": mode != "not",
+                           "e2e": True, "e2e_seed": {"ev": ev, "exp": 5}, "e2e_runs": runs, "calls": calls})
+    # fresh action lists dropped after every call, contents changing, 0/1 among them
+    rounds = [[0, 1, 2, 3], [1, 3], [7, 8, 1], [0, 9], [1, 5, 6, 0, 2], [4, 1]]
+    for fmt in ("A", "AP", "PM", "dA"):
+        for mode in ("not", "row", "single", "col"):
+            for reps in (1, 2):
+                calls, k = [], 0
+                for rd in rounds:
+                    for _ in range(reps):
+                        acts = [{"i": v} for v in rd]
+                        n = 1 if mode == "not" else 2
+                        calls.append([row(acts, (k + i) % len(acts), 400 + 10 * k + i, pmf=[{"i": int(j == (k + i) % len(acts))} for j in range(len(acts))])
+                                      for i in range(n)])
+                        k += 1
+                cs.append({"seed": 2, "fmt": fmt, "kw": True, "layout": "single" if mode == "not" else mode, "batch": mode != "not",
+                           "drop": True, "calls": calls})
     # phase 3: score kinds (has_score / score error paths), one wrapper switched between batched and unbatched calls, nan actions
     kinds = ["absent", "base", ["raises", "AttributeError", "'Model' object has no attribute 'score'"],
              ["raises", "AttributeError", "'NoneType' object has no attribute 'score_table'"], ["raises", "KeyError", "score_cache"],
